@@ -7,6 +7,7 @@ import time
 from .facts import VERIF, AnchorMissing, load_facts
 
 KNOWN_FILE = os.path.join(VERIF, "known_findings.txt")
+EVID = os.environ.get("H2T_EVIDENCE_DIR", os.path.join(VERIF, "evidence"))
 
 
 class Ob:
@@ -141,12 +142,12 @@ def run_property(prop, module, tier, configs, extra=None):
     stale_known = [k for k in known if k not in ctx.obs or ctx.obs[k].status != "violation"]
     n_ob = len([o for o in obs if o.status != "info"])
     n_ok = len([o for o in obs if o.status == "ok"])
-    os.makedirs(os.path.join(VERIF, "evidence", "replay", prop), exist_ok=True)
+    os.makedirs(os.path.join(EVID, "replay", prop), exist_ok=True)
     for o in kn:
         print("KNOWN-FINDING: property=%s %s [%s]" % (prop, known[o.full_key()], o.full_key()))
     rc = 0
     for i, o in enumerate(unknown):
-        path = os.path.join(VERIF, "evidence", "replay", prop, "%d.json" % i)
+        path = os.path.join(EVID, "replay", prop, "%d.json" % i)
         with open(path, "w") as fh:
             json.dump({
                 "property": prop, "rule": o.rule, "rule_statement": ctx.rules.get(o.rule, ""),
@@ -219,7 +220,7 @@ def run_property(prop, module, tier, configs, extra=None):
         "wall_s": round(time.time() - t0, 3),
         "violations": len(unknown),
     }
-    with open(os.path.join(VERIF, "evidence", "%s.json" % prop), "w") as fh:
+    with open(os.path.join(EVID, "%s.json" % prop), "w") as fh:
         json.dump(ev, fh, indent=1, ensure_ascii=False)
     print("%s %s: %d obligations, %d discharged, %d known findings, %d violations (%.1fs; configs %s)"
           % (prop, tier, n_ob, n_ok, len(kn), len(unknown), time.time() - t0, ",".join(configs)))
